@@ -447,7 +447,7 @@ def recipe_coq(r, draws=()):
 
 
 def uses_random(recipe):
-    return '"randref"' in json.dumps(recipe["stmts"])
+    return '"randref"' in json.dumps(recipe.get("stmts", []))
 
 
 def chooser_for(recipe, offset=0):
@@ -562,7 +562,7 @@ def run_recipe(recipe, reps=1, user_options=None, continuation=None, want_contin
     app.echo = lambda *a, **k: None
     out_cont = io.StringIO() if want_continuation else None
     try:
-        generate(io.StringIO(recipe_yaml(recipe)), dict(user_options or {}), cap, app,
+        generate(io.StringIO(recipe.get("raw_yaml") or recipe_yaml(recipe)), dict(user_options or {}), cap, app,
                  generate_continuation_file=out_cont,
                  continuation_file=io.StringIO(continuation) if continuation else None)
     except BaseException as e:
